@@ -133,6 +133,27 @@ def make_renaming(case, rng):
     return {n: fresh[i] for i, n in enumerate(names)}
 
 
+def make_renaming_lexical(case, rng):
+    """Bijective renaming onto a lexically varied pool: single upper/lower-case letters next to multi-character
+    names, digits, underscores and names that look like generated ones - a result must not depend on spelling."""
+    names = sorted(set(_NAME.findall(case["desc"])) | set(case["kwargs"]))
+    upper = list("ABCDEFGH")
+    multi = ["seq", "ab", "x1", "_", "cse0", "unnamed", "Ab", "a_b", "i0", "np"]
+    lower = list("ijklmn")
+    pool = []
+    ups, mul, low = upper[:], multi[:], lower[:]
+    rng.shuffle(mul)
+    if rng.random() < 0.5:
+        rng.shuffle(ups)
+    while ups or mul or low:
+        r = rng.random()
+        src = ups if (r < 0.45 and ups) else mul if (r < 0.85 and mul) else low if low else (ups or mul)
+        pool.append(src.pop(0))
+    opt_names = set(case["opts"])
+    fresh = [p for p in pool if p not in names and p not in opt_names]
+    return {n: fresh[i] for i, n in enumerate(names)}
+
+
 def item_ndims(it):
     if isinstance(it, Brk):
         return sum(item_ndims(i) for i in it.items)
@@ -244,7 +265,7 @@ def outcome(op, desc, arrs, kwargs, backend):
         out = call_any(op, desc, arrs, kwargs, backend)
         return "ok", harness.as_list(out)
     except Exception as e:  # noqa: BLE001
-        return "raised", (harness.classify_exception(e), type(e).__name__, str(e)[:200])
+        return "raised", (harness.classify_exception(e), type(e).__name__, str(e)[:400])
 
 
 def decide_pair(prop, title, chain_a, chain_b, post_a, arrs, assumptions=(), timeout_ms=15000, kinds=None, tol_ops=False, exceptions_must_agree=True):
@@ -290,7 +311,7 @@ def decide_pair(prop, title, chain_a, chain_b, post_a, arrs, assumptions=(), tim
             res["error"] = str(va if sa == "raised" else vb)[:200]
             return res
         res["status"] = "asymmetric?"
-        res["error"] = str(va if sa == "raised" else vb)[:300]
+        res["error"] = str(va if sa == "raised" else vb)[:600]
         model_inputs = [zeros_like(a, k) for a, k in zip(arrs, kinds or ["int"] * len(arrs))]
     else:
         try:
